@@ -37,8 +37,8 @@ void verif_nw_fields(void *, size_t *, size_t *, size_t *);
 
 static const struct { size_t buflen, min; } RW[] = { {1, 1}, {3, 1}, {4, 2}, {4, 4}, {6, 3}, {5, 0} };
 #define NRW 6
-static int op_bound = 5, sub = 0;	/* 0 read 1 write 2 connect 3 accept */
-static const char * subname[] = { "read", "write", "connect", "accept" };
+static int op_bound = 5, sub = 0;	/* 0 read 1 write 2 connect 3 accept 4 duplex */
+static const char * subname[] = { "read", "write", "connect", "accept", "duplex" };
 
 #define FAIL(sig, ...) mc_fail("C06:" sig, __VA_ARGS__)
 
@@ -360,15 +360,135 @@ acc_body(void)
 	mc_outcome(acc_results, sizeof(int) * (size_t)nacc); mc_outcome(&callbacks, sizeof(callbacks));
 }
 
+
+/* ---------------- duplex: a read and a write request on descriptors that share registrations ---------------- */
+/*
+ * Two stream descriptors; on each a read request and a write request may be
+ * pending at the same time.  Every request is checked exactly as in the
+ * single-request drivers; what is new is the interplay: cancelling or
+ * completing one direction must not disturb the other direction of the same
+ * descriptor nor the other descriptor (pollfd compaction, shared event bits,
+ * error/hang-up reports that wake both directions).
+ */
+struct dreq { int active, id, fdi, dir; void * ck; size_t pos; int calls_idle; long result; int done; };
+static struct dreq DQ[2][2];	/* [descriptor][direction] */
+static int dfd[2]; static uint8_t dbuf[2][2][16]; static int dnext, dcallbacks;
+#define DLEN 3
+static int
+dx_callback(void * ck, ssize_t n)
+{
+	int id = (int)(uintptr_t)ck, f, d; struct dreq * q = NULL;
+	for (f = 0; f < 2; f++) for (d = 0; d < 2; d++) if (DQ[f][d].active && DQ[f][d].id == id) q = &DQ[f][d];
+	mc_note("callback(request %d, n=%zd)", id, n);
+	dcallbacks++;
+	if (q == NULL) { FAIL("callback-unexpected", "callback for request %d which is not active (completed or cancelled before)", id); return (0); }
+	q->active = 0; q->result = (long)n; q->done = 1;
+	f = q->fdi;
+	if (q->dir == 0) {
+		size_t got = fk_in_read(dfd[f]) - q->pos;
+		if (n > 0) { if ((size_t)n > DLEN || (size_t)n != got || memcmp(dbuf[f][0] + 4, stream + q->pos, (size_t)n) != 0) FAIL("read-bytes", "duplex: read on fd %d reported n=%zd but %zu bytes were taken / buffer does not hold the stream bytes", dfd[f], n, got); }
+		else if (n == 0) { if (!fk_in_end_delivered(dfd[f])) FAIL("read-eof", "duplex: end-of-stream reported but the peer has not closed"); }
+		else FAIL("read-error", "duplex: read error reported but none was injected");
+		q->calls_idle = fk_recv_calls(dfd[f]);
+	} else {
+		size_t put = fk_outlen(dfd[f]) - q->pos;
+		if (n > 0) { if ((size_t)n != DLEN || put != DLEN || memcmp(fk_out(dfd[f]) + q->pos, dbuf[f][1] + 4, DLEN) != 0) FAIL("write-bytes", "duplex: write on fd %d reported n=%zd after %zu bytes were handed to the socket", dfd[f], n, put); }
+		else if (n == -1) { if (!fk_send_broken(dfd[f])) FAIL("write-error", "duplex: write error reported but none was injected"); }
+		else FAIL("write-count", "duplex: write callback reported n=%zd", n);
+		q->calls_idle = fk_send_calls(dfd[f]);
+	}
+	return (0);
+}
+static void
+dx_invariants(void)
+{
+	int f;
+	kernel_misuse_check();
+	for (f = 0; f < 2; f++) {
+		if (!DQ[f][0].active && fk_recv_calls(dfd[f]) != DQ[f][0].calls_idle) FAIL("transfer-while-idle", "duplex: recv on fd %d although no read request is active", dfd[f]);
+		if (!DQ[f][1].active && fk_send_calls(dfd[f]) != DQ[f][1].calls_idle) FAIL("transfer-while-idle", "duplex: send on fd %d although no write request is active", dfd[f]);
+	}
+}
+static void
+dx_state(int where, int extra)
+{
+	uint8_t b[1700]; size_t n = 0, v[3]; int f, d;
+	b[n++] = (uint8_t)where; b[n++] = (uint8_t)extra; b[n++] = (uint8_t)ops; b[n++] = (uint8_t)dcallbacks; b[n++] = (uint8_t)slen; b[n++] = (uint8_t)send_;
+	for (f = 0; f < 2; f++) for (d = 0; d < 2; d++) {
+		struct dreq * q = &DQ[f][d];
+		b[n++] = (uint8_t)(q->active | (q->done << 1)); b[n++] = (uint8_t)q->pos; b[n++] = (uint8_t)(q->result + 2);
+		v[0] = v[1] = v[2] = 0;
+		if (q->active) { if (d == 0) verif_nr_fields(q->ck, &v[0], &v[1], &v[2]); else verif_nw_fields(q->ck, &v[0], &v[1], &v[2]); }
+		b[n++] = (uint8_t)v[2];
+	}
+	n += evdump(b + n, 600, fk_now_us);
+	n += fk_canon(b + n, 600);
+	mc_state(b, n);
+}
+static void
+dx_prepoll(const struct pollfd * fds, int nfds, int timeout)
+{
+	int f, d;
+	dx_invariants();
+	for (f = 0; f < 2; f++) for (d = 0; d < 2; d++) if (DQ[f][d].active && !fk_polled(fds, nfds, dfd[f], d == 0 ? POLLIN : POLLOUT))
+		FAIL("lost-wakeup", "duplex: request %d (fd %d, %s) is active but not polled", DQ[f][d].id, dfd[f], d == 0 ? "read" : "write");
+	if (mc_failed()) mc_cut("violation recorded");
+	dx_state(1, timeout < 0 ? 255 : (timeout > 200 ? 200 : timeout));
+}
+static void
+dx_body(void)
+{
+	size_t i; int f, d;
+	fk_reset(); fk_pre_poll_hook = dx_prepoll; fk_allow_hup = 1;
+	{ static const size_t am[] = {1, 2}; fk_set_arrival_menu(am, 2); fk_set_space_menu(am, 2); }
+	for (i = 0; i < sizeof(stream); i++) stream[i] = (uint8_t)(0xA0 + i);
+	memset(DQ, 0, sizeof(DQ)); ops = dnext = dcallbacks = 0;
+	slen = 2 + mc_pick(3, "stream-length"); send_ = mc_pick(3, "stream-end");
+	dfd[0] = fk_stream_new(stream, (size_t)slen, send_); dfd[1] = fk_stream_new(stream, (size_t)slen, FK_END_NONE);
+	for (f = 0; f < 2; f++) for (d = 0; d < 2; d++) { DQ[f][d].fdi = f; DQ[f][d].dir = d; }
+	for (;;) {
+		int kind[12], kf[12], kd[12], nm = 0, c;
+		dx_invariants();
+		if (mc_failed()) break;
+		dx_state(0, 0);
+		if (ops >= op_bound) break;
+		kind[nm++] = 0;
+		for (f = 0; f < 2; f++) for (d = 0; d < 2; d++) { if (!DQ[f][d].active && !DQ[f][d].done) { kind[nm] = 1; kf[nm] = f; kd[nm++] = d; } if (DQ[f][d].active) { kind[nm] = 2; kf[nm] = f; kd[nm++] = d; } }
+		kind[nm++] = 4;
+		c = mc_pick(nm, "op");
+		if (kind[c] == 4) break;
+		ops++;
+		if (kind[c] == 0) { int rc; mc_note("events_run()"); rc = events_run(); mc_note("events_run -> %d", rc); if (rc != 0) FAIL("run-status", "events_run returned %d", rc); }
+		else {
+			struct dreq * q = &DQ[kf[c]][kd[c]]; f = kf[c]; d = kd[c];
+			if (kind[c] == 1) {
+				memset(dbuf[f][d], 0xC5, sizeof(dbuf[f][d]));
+				if (d == 1) for (i = 0; i < DLEN; i++) dbuf[f][1][4 + i] = (uint8_t)(0x40 + f * 8 + (int)i);
+				q->id = ++dnext; q->pos = d == 0 ? fk_in_read(dfd[f]) : fk_outlen(dfd[f]);
+				q->ck = d == 0 ? network_read(dfd[f], dbuf[f][0] + 4, DLEN, 2, dx_callback, (void *)(uintptr_t)q->id) : network_write(dfd[f], dbuf[f][1] + 4, DLEN, DLEN, dx_callback, (void *)(uintptr_t)q->id);
+				mc_note("network_%s(fd %d) -> request %d%s", d == 0 ? "read" : "write", dfd[f], q->id, q->ck ? "" : " FAILED");
+				if (q->ck == NULL) FAIL("register", "duplex: request on fd %d dir %d could not be registered although that direction is free", dfd[f], d); else q->active = 1;
+			} else {
+				mc_note("cancel request %d (fd %d, %s)", q->id, dfd[f], d == 0 ? "read" : "write");
+				if (d == 0) network_read_cancel(q->ck); else network_write_cancel(q->ck);
+				q->active = 0; q->done = 1; q->calls_idle = d == 0 ? fk_recv_calls(dfd[f]) : fk_send_calls(dfd[f]);
+			}
+		}
+	}
+	mc_outcome(&dcallbacks, sizeof(dcallbacks));
+	for (f = 0; f < 2; f++) for (d = 0; d < 2; d++) mc_outcome(&DQ[f][d].result, sizeof(long));
+}
+
 /* ---------------- common ---------------- */
 static void
 teardown(void)
 {
 	if (active && cookie != NULL) {
 		if (sub == 0) network_read_cancel(cookie); else if (sub == 1) network_write_cancel(cookie);
-		else if (sub == 2) network_connect_cancel(cookie); else network_accept_cancel(cookie);
+		else if (sub == 2) network_connect_cancel(cookie); else if (sub == 3) network_accept_cancel(cookie);
 	}
 	active = 0; cookie = NULL;
+	if (sub == 4) { int f, d; for (f = 0; f < 2; f++) for (d = 0; d < 2; d++) if (DQ[f][d].active) { if (d == 0) network_read_cancel(DQ[f][d].ck); else network_write_cancel(DQ[f][d].ck); DQ[f][d].active = 0; } fk_allow_hup = 0; }
 	if (timer_armed && timer_cookie != NULL) events_timer_cancel(timer_cookie);
 	timer_armed = 0; timer_cookie = NULL;
 	fk_teardown_mode = 1; events_run(); fk_teardown_mode = 0;
@@ -386,16 +506,16 @@ main(int argc, char ** argv)
 	struct mc_config cfgm; int i, dev = 2; static char args[200]; const char * p;
 	vf_init(&argc, argv, "h_netio");
 	for (i = 1; i < argc; i++) {
-		if (!strcmp(argv[i], "--sub") && i + 1 < argc) { int k; i++; for (k = 0; k < 4; k++) if (!strcmp(argv[i], subname[k])) sub = k; }
+		if (!strcmp(argv[i], "--sub") && i + 1 < argc) { int k; i++; for (k = 0; k < 5; k++) if (!strcmp(argv[i], subname[k])) sub = k; }
 		else if (!strcmp(argv[i], "--ops") && i + 1 < argc) op_bound = atoi(argv[++i]);
 		else if (!strcmp(argv[i], "--dev") && i + 1 < argc) dev = atoi(argv[++i]);
 	}
 	if (vf_replay) {
-		if ((p = strstr(vf_replay, "\"--sub\",\"")) != NULL) { int k; for (k = 0; k < 4; k++) if (!strncmp(p + 9, subname[k], strlen(subname[k]))) sub = k; }
+		if ((p = strstr(vf_replay, "\"--sub\",\"")) != NULL) { int k; for (k = 4; k >= 0; k--) if (!strncmp(p + 9, subname[k], strlen(subname[k]))) { sub = k; break; } }
 		if ((p = strstr(vf_replay, "\"--ops\",\"")) != NULL) op_bound = atoi(p + 9);
 	}
 	memset(&cfgm, 0, sizeof(cfgm));
-	cfgm.name = subname[sub]; cfgm.body = sub <= 1 ? rw_body : sub == 2 ? conn_body : acc_body; cfgm.teardown = teardown; cfgm.dev_bound = dev; cfgm.table_bits = 24;
+	cfgm.name = subname[sub]; cfgm.body = sub <= 1 ? rw_body : sub == 2 ? conn_body : sub == 3 ? acc_body : dx_body; cfgm.teardown = teardown; cfgm.dev_bound = dev; cfgm.table_bits = 24;
 	snprintf(args, sizeof(args), "[\"--sub\",\"%s\",\"--ops\",\"%d\"]", subname[sub], op_bound);
 	cfgm.args_json = args;
 	(void)rw_blocked;
